@@ -51,7 +51,9 @@ class Gen:
         if r < 0.80:
             ty = self.rnd.choice([T8, T8, T4]) if any(t == T4 for t in self.vals.values()) else T8
             return ("gen", self.pick(ty), self.pick(ty), self.pick(ty), ty, self.newtag())
-        if r < 0.90:
+        if r < 0.86:
+            return ("region", self.rnd.choice(["snax_gemmx", "snax_xdma"]), self.pick(T8), self.pick(T8), self.pick(T8), self.newtag())
+        if r < 0.92:
             v = self.pick()
             return ("use", v, self.vals[v], self.newtag())
         if r < 0.95:
@@ -77,6 +79,8 @@ def render(prog, deallocs):
                 L.append(P + f'"memref.copy"({s[1]}, {s[2]}) {{tag = {s[4]} : i32}} : ({s[3]}, {s[3]}) -> ()')
             elif s[0] == "gen":
                 L.append(P + mc.GENERIC.format(i0=s[1], i1=s[2], o=s[3], t=s[5], ty=s[4], ind=P))
+            elif s[0] == "region":
+                L.append(P + mc.GEMMX_REGION.replace("%k{t}", "%kk{t}").format(acc=s[1], i0=s[2], i1=s[3], o=s[4], t=s[5], ty=T8, ind=P))
             elif s[0] == "use":
                 L.append(P + f'"test.op"({s[1]}) {{tag = {s[3]} : i32}} : ({s[2]}) -> ()')
             elif s[0] == "test":
@@ -141,7 +145,7 @@ def accesses(op, I):
     get = lambda o: region_of(I.get(o)) + (o,)
     if n == "memref.copy":
         return [(get(op.operands[0]), False), (get(op.operands[1]), True)]
-    if n == "linalg.generic":
+    if n in ("linalg.generic", "dart.operation"):
         ins, outs = list(op.inputs), list(op.outputs)
         return [(get(o), False) for o in ins] + [(get(o), True) for o in outs]
     if n == "memref.dealloc":
@@ -187,6 +191,12 @@ def case_prog(case, K=2):
     def fn():
         E = eng()
         main = xshim.make_main()
+        try:
+            from snaxc.accelerators.snax_xdma import SNAXXDMAAccelerator
+
+            main.ctx.register_accelerator("snax_xdma", SNAXXDMAAccelerator)  # only registered through config files otherwise
+        except ValueError:
+            pass
         m = Parser(main.ctx, src).parse_module()
         InsertSyncBarrier().apply(main.ctx, m)
         m3 = m.clone()
@@ -284,4 +294,4 @@ def run(chk):
         cases.append((prog, de))
     chk.add_results("races_and_barrier_counts", pmap(case_prog, cases, chunks=4))
     chk.bounds = dict(programs=len(cases), nesting="<=2", unroll_K=2, buffers="2 arguments + 3 allocations, <=3 subviews with offsets in {0,4,symbolic 0..4}")
-    chk.outside = ["streaming regions as producers/consumers", "more than 2 loop iterations", "views created inside loops"]
+    chk.outside = ["more than 2 loop iterations", "views created inside loops"]
